@@ -129,6 +129,16 @@ func execRng(cs *Sx) (res string) {
 			return "setup-error"
 		}
 		tok, err = base.Append(rd, base.CreateBlock().Build())
+	case "append-keyid":
+		base, e0 := biscuit.NewBuilder(priv, biscuit.WithRootKeyID(7)).Build()
+		if e0 != nil {
+			return "setup-error"
+		}
+		tok, err = base.Append(rd, base.CreateBlock().Build())
+	case "build-keyid": // the source given together with a root key id, in either order
+		tok, err = biscuit.NewBuilder(priv, biscuit.WithRNG(rd), biscuit.WithRootKeyID(7)).Build()
+	case "build-idkey":
+		tok, err = biscuit.NewBuilder(priv, biscuit.WithRootKeyID(7), biscuit.WithRNG(rd)).Build()
 	default:
 		tok, err = biscuit.NewBuilder(priv, biscuit.WithRNG(rd)).Build()
 	}
@@ -164,7 +174,7 @@ func execRng(cs *Sx) (res string) {
 }
 
 func runC20(c *Ctx) {
-	c.Rule = "the fault space is finite and enumerated completely: operations {New, Build+WithRNG, Append} x failure point k in 0..31 x reader behaviours {error together with the last chunk, error on the next call, io.EOF (script ends), 1-byte chunks then error, zero-length reads interleaved, one big chunk of k bytes then error} plus success scripts (exactly 32 bytes in 1/2/3/32 chunks, more than 32 bytes, error arriving with the 32nd byte). For every case: an error and no token when fewer than 32 bytes are delivered, otherwise a token whose next secret is exactly the delivered bytes, whose announced key is derived from them (stdlib ed25519) and which verifies. Non-trivial = every case (each is a distinct fault position/behaviour); exhaustive over the grid."
+	c.Rule = "the fault space is finite and enumerated completely: operations {New, Build+WithRNG, Append, Build+WithRNG+WithRootKeyID in both option orders, Append on a token with a root key id} x failure point k in 0..31 x reader behaviours {error together with the last chunk, error on the next call, io.EOF (script ends), 1-byte chunks then error, zero-length reads interleaved, one big chunk of k bytes then error} plus success scripts (exactly 32 bytes in 1/2/3/32 chunks, more than 32 bytes, error arriving with the 32nd byte). For every case: an error and no token when fewer than 32 bytes are delivered, otherwise a token whose next secret is exactly the delivered bytes, whose announced key is derived from them (stdlib ed25519) and which verifies. Non-trivial = every case (each is a distinct fault position/behaviour); exhaustive over the grid."
 	seedBytes := make([]byte, 40)
 	r := NewRng(c.Seed)
 	for i := range seedBytes {
@@ -185,7 +195,7 @@ func runC20(c *Ctx) {
 			c.Sample(map[string]string{"case": sx, "go": res})
 		}
 	}
-	for _, op := range []string{"new", "build", "append"} {
+	for _, op := range []string{"new", "build", "append", "build-keyid", "build-idkey", "append-keyid"} {
 		for k := 0; k < 32; k++ {
 			data := seedBytes[:k]
 			emit("fault", op, []readStep{{K: "chunkerr", Data: data}})                  // error with the last chunk
@@ -218,5 +228,5 @@ func runC20(c *Ctx) {
 		emit("success", op, []readStep{{K: "chunkerr", Data: full}})                                     // error arrives with the 32nd byte
 		emit("success", op, []readStep{{K: "chunk", Data: full[:31]}, {K: "chunkerr", Data: full[31:]}}) // idem, last byte
 	}
-	c.Extra["exhaustive_grid"] = "3 ops x 32 failure points x 6 behaviours + 21 success scripts"
+	c.Extra["exhaustive_grid"] = "6 ops x 32 failure points x 6 behaviours + 42 success scripts"
 }
